@@ -77,8 +77,9 @@ Fixpoint lm_get (i : Z) (m : list (Z * pv)) : option pv :=
 Definition put_index (used : list Z) (o : op) : option Z :=
   match o with
   | MEMOIZE => Some (Z.of_nat (List.length used))
-  | BINPUT i | LONG_BINPUT i => Some i
-  | PUT i => if Z.ltb i 0 then None else Some i
+  | BINPUT i => Some i
+  | LONG_BINPUT i => if Z.ltb MEMO_MAX i then None else Some i      (* beyond: the memo array may not be allocatable *)
+  | PUT i => if Z.ltb i 0 then None else if Z.ltb MEMO_MAX i then None else Some i
   | _ => None
   end.
 Definition get_index (o : op) : option Z :=
